@@ -26,7 +26,7 @@ add("C20", "exploration",
 
 add("C12", "exploration",
     "reference-model monitor over the simulated BMC's request log (discovery use, proposal) + response mutator on the Open Session Response",
-    "Selection is enumerated exhaustively for all ordered preference lists of length 0..3 over a 6-suite universe against all 64 advertised subsets and compared with a small model; the answer side rewrites the algorithm triple (all values per axis, PRNG triples; thorough: all 64^3 for three proposals) and requires an error unless it equals the proposal.",
+    "Selection is enumerated exhaustively for all ordered preference lists of length 0..3 over a 6-suite universe against all 64 advertised subsets and compared with a small model; adverts of up to 900 bytes, duplicates, zero-length and faulty discovery replies, repeated handshakes on one connection; the answer side rewrites the algorithm triple (all values per axis, PRNG triples; thorough: all 64^3 for three proposals) and requires an error unless it equals the proposal.",
     "Trusted base: refbmc's cipher suite record encoding (table 22-19) and handshake.",
     "DESIGN.md 5/C12")
 
@@ -38,7 +38,7 @@ add("C02", "fault_enumeration",
 
 add("C03", "exploration",
     "online wire monitor in the simulated BMC: per-datagram verification of header, integrity trailer, AuthCode, AES-CBC framing, checksums and decrypted command against independent request tables; global IV-uniqueness set",
-    "All nine suites; every opaque body length 0..200 in the three NetFn classes in ascending and shuffled order; mixed histories of all library commands with retransmissions; fresh and long-lived connections; also over loopback UDP.",
+    "All nine suites; every opaque body length 0..200 in the three NetFn classes in ascending and shuffled order; mixed histories of all library commands with retransmissions, lost replies that take the real per-attempt timeout and interleaved session-less commands; fresh and long-lived connections; also over loopback UDP; an entropy-source failure injected in a child process (nothing encrypted may be transmitted afterwards).",
     "Trusted base: refbmc/refcodec reading of IPMI v2.0 13.28-13.29 and the request tables. Sampled field values.",
     "DESIGN.md 5/C03")
 
@@ -86,19 +86,19 @@ add("C14", "exploration",
 
 add("C15", "exploration",
     "exact-rational reference evaluation (math/big) of the conversion formula compared with SensorReader.Read served through a real session",
-    "Exhaustive 256 x 3 x 12 x 8 grid for three factor sets, boundary-complete sweeps of M, B, K1, K2, then PRNG; constructor refusal; sensor number/LUN seen by the BMC.",
+    "Exhaustive 256 x 3 x 12 x 8 grid for three factor sets, boundary-complete sweeps of M, B, K1, K2, then PRNG; constructor refusal over all linearisation values (constructed and wire-decoded records, arbitrary other fields); failing reads between readings on one reader; sensor number/LUN seen by the BMC.",
     "Tolerance scaled to the magnitude of the terms; ill-conditioned points compared by class only and counted separately.",
     "DESIGN.md 5/C15")
 
 add("C16", "exploration",
     "ground-truth servers for paged data (cipher suite records in 16-byte chunks, DCMI sensor-info pages) + independent record grammar; request log bounds termination",
-    "Record lists steered onto chunk boundaries, malformed data at every cut; DCMI: every instance count 0..255 with page sizes 1..8 and five fallback modes.",
+    "Record lists steered onto chunk boundaries, malformed data at every cut; lists of up to 200 records (64 chunks); DCMI: every instance count 0..255 with page sizes 1..200, five fallback modes, errors on later pages and BMCs that over-report the instance count.",
     "Entity-ID constants checked against specification values at start-up.",
     "DESIGN.md 5/C16")
 
 add("C17", "exploration",
     "differential reuse monitor: used layer/connection vs fresh one, deep comparison of exported fields by value",
-    "Ordered pairs of valid encodings per layer covering all branch combinations, plus every truncation and small mutations as later inputs; every ordered pair of 12 commands x 6 first-command outcomes x {session-less, in-session} against a fresh connection; cipher-suite discovery histories with failures part-way.",
+    "Ordered pairs of valid encodings per layer covering all branch combinations, plus every truncation and small mutations as later inputs; every ordered pair of 12 commands x 6 first-command outcomes x {session-less, in-session} against a fresh connection; cipher-suite discovery and SDR histories with failures part-way; results of the high-level calls held across later calls; sessions of up to 600 commands.",
     "Whatever a decoder accepts must decode identically into a used and a fresh value; sampled.",
     "DESIGN.md 5/C17")
 
@@ -110,12 +110,12 @@ add("C13", "fault_enumeration",
 
 add("C18", "exploration",
     "conservation monitor: prometheus.DefaultGatherer snapshot before/after every step of random histories vs a model fed from transport-level counts",
-    "Random histories (up to 60 steps) over dials, opens, commands with scripted outcomes, serialisation failures and closes; every bmc_* counter and gauge delta must equal the model's for every step.",
+    "Random histories (up to 60 steps) over dials (incl. non-positive timeouts), opens, arbitrary commands with scripted outcomes (incl. strays and message-less datagrams), bounded retry policies that give up, serialisation failures and closes; every bmc_* counter and gauge delta must equal the model's for every step.",
     "Histories run one at a time in the process (vectors are process-global); only unambiguous outcomes are generated.",
     "DESIGN.md 5/C18")
 
 add("C19", "exploration",
     "Go race detector (binary built with -race, reports parsed and de-duplicated by library frames) + differential solo-vs-concurrent transcripts of results and BMC-side datagram logs",
-    "Rounds of 2..16 goroutines with independent connections (UDP and in-memory) and seeded random workloads, repeated; interleaving evidence = distinct worker-ID sequences over transport events.",
+    "Rounds of 2..16 goroutines with independent connections (UDP and in-memory), shared read-only option values, same-key sensors with per-BMC factors and seeded random workloads (repository walks, readers, session info, busy/stalled peers), repeated; interleaving evidence = distinct worker-ID sequences over transport events.",
     "Judges executed accesses under the schedules this run produced; non-reproducing transcript differences are inconclusive.",
     "DESIGN.md 5/C19")
